@@ -1,5 +1,9 @@
 import RgVerif.Lemmas.WalkNodup
 import RgVerif.Lemmas.WalkWitness
+import RgVerif.Lemmas.WalkBridge
+import RgVerif.Lemmas.WalkPathSpec
+import RgVerif.Lemmas.WalkSim
+import RgVerif.Props.C07
 /-
 C06 — the single-threaded and the parallel walker report the same entries, once each, and that set
 is the reachable set; symlink loops are reported as errors and the traversal ends.
@@ -119,6 +123,62 @@ theorem loop_reported_and_terminates (cfg : Cfg) (forest : List Node) :
     · intro hz
       rw [serial_eq cfg forest f roots (by rw [hh]; exact hz),
         serial_eq cfg forest _ roots hz, hr]
+
+/-- The serial walker as the code is built — walkdir's `IntoIter` (stack of directory listings,
+`stack_path`, `handle_entry`, `push`/`pop`, the `max_depth` pop loop, `skip_current_dir`),
+`WalkEventIter` (one-item look-ahead, `depth` counter, Dir / File / Exit events) and the loop of
+`Walk::next` (the `ig` stack, `skip_entry`), modelled as state machines in `Model/WalkEvents.lean` —
+reports, for every sufficiently large step budget, exactly the list of the recursive model `serial`
+(about which the other theorems speak); hence, under the guard, exactly the reachable entries. -/
+theorem serial_events_eq (cfg : Cfg) (forest : List Node) (roots : List Node) :
+    (∃ N, ∀ fuel, N ≤ fuel →
+      serialEvents cfg forest fuel roots = some (serial cfg forest (dirCount forest + 1) roots)) ∧
+    (hazardFree cfg forest (dirCount forest + 1) roots = true →
+      ∃ N, ∀ fuel, N ≤ fuel →
+        serialEvents cfg forest fuel roots = some (reach cfg forest (dirCount forest + 1) roots)) := by
+  have h := serialEvents_eq cfg forest (dirCount forest + 1) (Nat.le_refl _) roots
+  refine ⟨h, ?_⟩
+  intro hz
+  rw [← serial_eq cfg forest _ roots hz]
+  exact h
+
+/-- The specification read path by path (`Spec/ReachPath.lean`: an item is reported iff it is a root,
+or what `entryOut` says about a child of a *listed* directory; a directory is listed iff it is a root
+directory within the depth limit or a reported child directory — possibly through a followed,
+non-looping link — of a listed directory, on the root's device and within the depth limit) is exactly
+the recursive specification `reach`. -/
+theorem reach_iff_reported (cfg : Cfg) (forest : List Node) (fuel : Nat) (roots : List Node)
+    (hf : dirCount forest + 1 ≤ fuel) (o : Out) :
+    o ∈ reach cfg forest fuel roots ↔ Reported cfg forest roots o :=
+  RgVerif.Walk.reach_iff_reported cfg forest fuel roots hf o
+
+/-- C06 and C07 composed — the real object, threads included: start `n ≥ 1` workers of the C07
+transition system on the works that `WalkParallel::visit` creates for `roots` (`workForest`: one
+node per `Work` that `generate_work` sends, as computed by the C06 model).  Under EVERY interleaving
+(`ParWalk.Reachable`), any steal batch sizes and spurious steal failures:
+(1) once every worker has exited and no visitor asked to quit, the visitor calls are exactly the
+    reachable entries of the specification `reach`, each as often as it occurs there;
+(2) at any time, also after a quit, no entry has been handed out more often than it occurs in `reach`;
+(3) on a well-formed file system (distinct names in each directory and among the roots): never twice. -/
+theorem parallel_any_schedule (cfg : Cfg) (forest : List Node) (fuel : Nat) (roots : List Node)
+    (n : Nat) (hn : 0 < n) (s : ParWalk.State)
+    (h : ParWalk.Reachable n (workForest cfg forest fuel roots) s) :
+    (ParWalk.AllExited n s → s.quitAsked = false →
+      s.visited.Perm (entriesOf (reach cfg forest fuel roots))) ∧
+    (∀ p, s.visited.count p ≤ (entriesOf (reach cfg forest fuel roots)).count p) ∧
+    (WfL forest → WfL roots → (roots.map Node.name).Nodup → s.visited.Nodup) := by
+  have he := workForest_entries cfg forest fuel roots
+  refine ⟨?_, ?_, ?_⟩
+  · intro hex hq
+    rw [← he]
+    exact RgVerif.Props.C07.C07_safe hn h hex hq
+  · intro p
+    rw [← he]
+    exact (RgVerif.Props.C07.C07_quit hn h).1 p
+  · intro hwf hwr hnr
+    apply (RgVerif.Props.C07.C07_quit hn h).2
+    rw [he]
+    exact reach_entries_nodup cfg forest hwf fuel roots hnr hwr
 
 /-! Non-vacuity of the guard and the hypotheses of `C06_partial`: a root on device 1 with an ignore
 file, a sub-directory on device 2 that is *not* rejected (reported but not entered), a link cycle,
